@@ -487,3 +487,31 @@ func VP_C16_explain() {
 	zzvp.Assert(r1.n == w1n && r2.n == w2n, "an extraction run concurrently with another returned something else than when run alone")
 	zzvp.Reach("two-uses")
 }
+
+// VP_C18_explain_cnf: explain.Problem.CNF() re-read by explain.ParseCNF gives the same problem.
+func VP_C18_explain_cnf() {
+	n := zzvp.Param("n", 2)
+	F := vpConcreteCNF(n, zzvp.Param("m", 3), zzvp.Param("k", 2), "")
+	pb, err := ParseCNF(strings.NewReader(vpDimacs(n, F)))
+	if err != nil {
+		zzvp.Assert(false, "ParseCNF failed")
+		return
+	}
+	text := pb.CNF()
+	zzvp.Obs("text", text)
+	pb2, err := ParseCNF(strings.NewReader(text))
+	zzvp.Assert(err == nil, "the printed problem is rejected by ParseCNF")
+	if err != nil {
+		return
+	}
+	zzvp.Assert(pb2.NbVars == pb.NbVars && pb2.NbClauses == pb.NbClauses, "header counts changed")
+	zzvp.Assert(vpSame2(pb2.Clauses, F), "the re-read clauses differ from the original ones")
+	same := len(pb.units) == len(pb2.units)
+	for i := range pb.units {
+		if same && pb.units[i] != pb2.units[i] {
+			same = false
+		}
+	}
+	zzvp.Assert(same, "unit bindings differ after the round trip")
+	zzvp.Reach("explain-cnf")
+}
